@@ -145,6 +145,7 @@ func runC08(c *an.Ctx) {
 			}
 		}
 		checkDriverCoverage(c, "C08.c", d)
+		checkWriteBatch(c, "C08.c")
 	}
 
 	// --- C08.b per-height step
